@@ -13,7 +13,7 @@ from .. import common, shim, gen
 from . import seqprop
 
 GEN = ['JsonUtilGen.v', 'Locks.v', 'Decisions.v']
-DECISIONS = ['FileBuilder._append_suboperation', 'FileBuilder._assert_not_finished', 'FileBuilder._exec_simple_operation']
+DECISIONS = ['FileBuilder._append_suboperation', 'FileBuilder._assert_not_finished', 'FileBuilder._exec_simple_operation', 'FileBuilder._rebuild_file', 'FileBuilder._build_file', 'FileBuilder._subbuild', 'FileBuilder.build_file_with_comparison', 'FileBuilder.subbuild', 'FileBuilder._build', 'Cache.finish_building_file', 'Cache.finish_subbuild']
 SITES = False
 ORDER = False
 
@@ -154,6 +154,36 @@ def straggler_race(rep, tier, budget, workdir):
     fails = []
     bound = 2 if tier == "quick" else 3
     limit = (300 if tier == "quick" else 4000) * budget
+    # order of "record closed" (registered in the new cache) and "observation attached" events, seen from
+    # outside by wrapping the three methods (harness-side instrumentation; the source is untouched)
+    from file_builder.cache import Cache
+    from file_builder.file_builder import FileBuilder as FB
+    events = []
+    orig = (Cache.finish_building_file, Cache.finish_subbuild, FB._append_suboperation)
+
+    def w_fbf(self, operation):
+        events.append(("close", id(operation)))
+        return orig[0](self, operation)
+
+    def w_fsb(self, key, operation):
+        events.append(("close", id(operation)))
+        return orig[1](self, key, operation)
+
+    def w_app(self, sub):
+        r = orig[2](self, sub)
+        events.append(("append", id(self._operation)))
+        return r
+    Cache.finish_building_file, Cache.finish_subbuild, FB._append_suboperation = w_fbf, w_fsb, w_app
+    try:
+        fails += _straggler_race_inner(rep, tier, bound, limit, workdir, events)
+    finally:
+        Cache.finish_building_file, Cache.finish_subbuild, FB._append_suboperation = orig
+    return fails
+
+
+def _straggler_race_inner(rep, tier, bound, limit, workdir, events):
+    from file_builder import FileBuilder
+    fails = []
     for kind in ("subbuild", "build_file"):
         seen = set()
         stack = [((), 0)]
@@ -168,6 +198,7 @@ def straggler_race(rep, tier, budget, workdir):
             root = os.path.join(base, "sb")
             os.makedirs(root)
             cache = os.path.join(root, "cache")
+            del events[:]
             sched = shim.Sched(prefix)
             hooks = shim.Hooks(sched=sched)
             shim.install(hooks)
@@ -214,6 +245,14 @@ def straggler_race(rep, tier, budget, workdir):
             if info["deadlock"]:
                 fails.append({"oracle": "straggler race: no deadlock", "kind": kind, "schedule": list(prefix)})
             else:
+                closed = set()
+                for ev, oid in list(events):
+                    if ev == "close":
+                        closed.add(oid)
+                    elif oid in closed:
+                        fails.append({"oracle": "no observation is attached to a record that has been closed", "kind": kind,
+                                      "schedule": list(prefix), "straggler": out.get("res")})
+                        break
                 inrec = record_has(cache, "s", "is_file")
                 if out.get("res") not in ("ok", "raised"):
                     fails.append({"oracle": "straggler call returns normally or raises RuntimeError", "kind": kind,
